@@ -180,17 +180,17 @@ Proof. exact pool_dropped_example. Qed.
    (-1, nil) = the statement falls through to the insertion loop *)
 Theorem C16_side_chain_decision_is_the_source :
   forall (enc : Z -> Z -> Z), (forall a b a' b', enc a b = enc a' b' -> a = a' /\ b = b') ->
-  forall c fr head tail,
+  forall c fr head tail start,
   let target := by_height c (u64 (s_height head - 1)) in
-  ZV.gen.PureSync.InsertChain_sidechain (prev_id enc head) (ident enc fr) 0
+  ZV.gen.PureSync.InsertChain_sidechain start (prev_id enc head) (ident enc fr) 0
     (match target with Some _ => true | None => false end)
     (match target with Some t => ident enc t | None => 0 end)
     (s_height fr) (match target with Some t => s_height t | None => 0 end) (s_height tail) 0
   = match side_decision c fr head tail with
     | None => (-1, 0)
-    | Some ELink => (0, ZV.gen.Pure.Err_new_can_t_link_momentums_to_insert__First_momentum_P)
-    | Some ETooFar => (0, ZV.gen.Pure.Err_new_can_t_rollback_to__v__Too_far__Frontier_is__v__W)
-    | Some _ => (0, ZV.gen.Pure.Err_new_won_t_insert_side_chain_which_is_not_longer)
+    | Some ELink => (start, ZV.gen.Pure.Err_new_can_t_link_momentums_to_insert__First_momentum_P)
+    | Some ETooFar => (start, ZV.gen.Pure.Err_new_can_t_rollback_to__v__Too_far__Frontier_is__v__W)
+    | Some _ => (start, ZV.gen.Pure.Err_new_won_t_insert_side_chain_which_is_not_longer)
     end.
 Proof. exact side_chain_is_source. Qed.
 Theorem C16_insert_chain_uses_side_decision : forall bvalid mvalid clears c pool ds start head rest fr,
@@ -200,12 +200,12 @@ Theorem C16_insert_chain_uses_side_decision : forall bvalid mvalid clears c pool
   let tail := last (head :: rest) head in
   insert_chain bvalid mvalid true clears c pool ds =
   match side_decision c fr (d_mom head) (d_mom tail) with
-  | Some e => (ICErr 0 e, (c, pool))
+  | Some e => (ICErr start e, (c, pool))
   | None =>
     if prev_is (d_mom head) fr then apply_all bvalid mvalid c pool (head :: rest) start
     else match by_height c (u64 (s_height (d_mom head) - 1)) with
          | Some target => apply_all bvalid mvalid (rollback_to c (s_height target)) (if clears then [] else pool) (head :: rest) start
-         | None => (ICErr 0 ELink, (c, pool))
+         | None => (ICErr start ELink, (c, pool))
          end
   end.
 Proof. exact insert_chain_uses_side_decision. Qed.
